@@ -55,8 +55,9 @@ func (c dlChain) InsertReceiptChain(types.Blocks, []types.Receipts, bool) (int, 
 // (batches are applied in their Put order, as the memory and LevelDB batches do).
 type recDB struct {
 	*youdb.MemDatabase
-	mu  sync.Mutex
-	log []kvw
+	mu          sync.Mutex
+	log         []kvw
+	batchWrites int
 }
 
 func (d *recDB) Put(k, v []byte) error {
@@ -86,6 +87,9 @@ func (b *recBatch) Delete(k []byte) error { return nil }
 func (b *recBatch) ValueSize() int        { return b.size }
 func (b *recBatch) Reset()                { b.ks, b.vs, b.size = nil, nil, 0 }
 func (b *recBatch) Write() error {
+	b.db.mu.Lock()
+	b.db.batchWrites++
+	b.db.mu.Unlock()
 	for i := range b.ks {
 		if err := b.db.Put(b.ks[i], b.vs[i]); err != nil {
 			return err
@@ -156,6 +160,7 @@ type dlEnv struct {
 	reqs        int
 	cancelAfter int
 	joinAfter   int // an honest peer joins after this many requests (0 = never)
+	honestAfter int // number of requests after which a peer answers honestly
 	rescues     int
 	seed        *rand.Rand
 	counts      map[string]int
@@ -204,6 +209,7 @@ type dlPeer struct {
 	mu   sync.Mutex
 	r    *rand.Rand
 	prev [][]byte
+	nreq int
 }
 
 func (p *dlPeer) Head() (common.Hash, *big.Int)                                { return common.Hash{}, big.NewInt(0) }
@@ -236,6 +242,11 @@ func (p *dlPeer) RequestNodeData(kind types.TrieKind, hashes []common.Hash) erro
 	}
 	p.mu.Lock()
 	r, pf := p.r, p.prof
+	p.nreq++
+	if p.nreq > e.honestAfter {
+		// every peer is EVENTUALLY honest (no verdict may depend on luck or on the TTL timers)
+		pf = peerProfile{Name: pf.Name, Shuffle: pf.Shuffle}
+	}
 	x := r.Float64()
 	var data [][]byte
 	mode := "answer"
@@ -326,7 +337,7 @@ type dlOutcome struct {
 
 // runDownload runs one production sync of t into dst.
 func runDownload(c *kit.Ctx, r *rand.Rand, w *world, t *target, kind types.TrieKind, dst *recDB, profiles []peerProfile, cancelAfter, joinAfter int) (out dlOutcome, err error) {
-	e := &dlEnv{c: c, w: w, live: map[string]bool{}, cancelAfter: cancelAfter, joinAfter: joinAfter,
+	e := &dlEnv{c: c, w: w, live: map[string]bool{}, cancelAfter: cancelAfter, joinAfter: joinAfter, honestAfter: 12 + len(t.order)/2,
 		seed: rand.New(rand.NewSource(r.Int63())), counts: map[string]int{}}
 	e.d = downloader.New(dlChain{dst}, nil, dst, e.unregister, new(event.TypeMux))
 	e.d.VerifBeginSession()
@@ -382,7 +393,7 @@ func errBucket(err error) string {
 	return "other"
 }
 
-func runDLCase(c *kit.Ctx, id string, kind string) {
+func runDLCase(c *kit.Ctx, id string, kind string, big bool) {
 	r := c.Rand(id)
 	alias := kind == "alias"
 	c.Begin(id, scenInput{Kind: kind, Alias: alias})
@@ -395,7 +406,7 @@ func runDLCase(c *kit.Ctx, id string, kind string) {
 	var err error
 	switch kind {
 	case "trie":
-		w, err = genTrieWorld(r)
+		w, err = genTrieWorld(r, big)
 	case "state", "alias":
 		w, err = genStateWorld(r, alias)
 	case "prod":
@@ -464,6 +475,7 @@ func runDLCase(c *kit.Ctx, id string, kind string) {
 		allProfiles = append(allProfiles, profiles)
 		v.label = fmt.Sprintf("dl job %d %s phase 1", ji, t.Name)
 		logStart := len(dst.log)
+		bw0 := dst.batchWrites
 		initial := dbKeySet(dst.MemDatabase)
 		out, err := runDownload(c, r, w, t, jb.kind, dst, profiles, cancelAfter, joinAfter)
 		outcomes = append(outcomes, out)
@@ -471,6 +483,10 @@ func runDLCase(c *kit.Ctx, id string, kind string) {
 		if out.TimedOut {
 			inconclusive = "production sync did not finish within the watchdog"
 			break
+		}
+		c.Count("dl_batch_writes", dst.batchWrites-bw0)
+		if dst.batchWrites-bw0 >= 2 {
+			c.Count("dl_syncs_with_periodic_commit", 1)
 		}
 		if err == nil {
 			c.Count("dl_syncs_nil", 1)
